@@ -118,4 +118,14 @@ Definition sadd (l : list sx) : sx :=
   | l' => SAdd l'
   end.
 
+(* bottom-up 0/1 elimination (what sympy does while it builds the result of diff) *)
+Fixpoint ssimp (e : sx) : sx :=
+  match e with
+  | SAdd l => sadd (map ssimp l)
+  | SMul l => smul (map ssimp l)
+  | SPow b x => SPow (ssimp b) x
+  | SFn f a => SFn f (ssimp a)
+  | _ => e
+  end.
+
 Definition sx_eqb (a b : sx) : bool := texpr_eqb (sx2t a) (sx2t b).
